@@ -461,6 +461,15 @@ impl RsyncCommand {
     /// Creates a new rsync command from the config.
     pub fn new(config: &Config) -> Result<Self, Failed> {
         let command = config.rsync_command.clone();
+        #[cfg(routinator_verif)]
+        if crate::verif::rsync_override_installed() {
+            // Hook H10: no rsync binary is needed.
+            return Ok(RsyncCommand {
+                command,
+                args: config.rsync_args.clone().unwrap_or_default(),
+                timeout: config.rsync_timeout,
+            })
+        }
         let output = match StdCommand::new(&command).arg("-h").output() {
             Ok(output) => output,
             Err(err) => {
@@ -525,6 +534,20 @@ impl RsyncCommand {
         mut log: LogBookWriter,
     ) -> RsyncModuleMetrics {
         let start = SystemTime::now();
+        #[cfg(routinator_verif)]
+        if let Some(code) = crate::verif::rsync_override(
+            &source.to_string(), destination
+        ) {
+            // Hook H10: in-process replacement for the rsync command.
+            use std::os::unix::process::ExitStatusExt;
+            let log = log.into_book();
+            return RsyncModuleMetrics {
+                module: source.to_uri(),
+                status: Ok(ExitStatus::from_raw(code << 8)),
+                duration: SystemTime::now().duration_since(start),
+                log_book: (!log.is_empty()).then_some(log),
+            }
+        }
         let status = self.command(
             source, destination, &mut log,
         ).and_then(|cmd| self.run(source, cmd, &mut log));
